@@ -105,8 +105,8 @@ func c08DrawAmount(t *rapid.T, side lnwire.MilliSatoshi,
 	label string) (lnwire.MilliSatoshi, string) {
 
 	cls := rapid.SampledFrom([]string{
-		"tiny", "dust", "dust", "mid", "mid", "mid", "big", "big",
-		"over",
+		"tiny", "dust", "dust", "dust", "mid", "mid", "mid", "mid",
+		"big", "big", "big", "over",
 	}).Draw(t, label+"class")
 
 	var amt int64
@@ -114,7 +114,7 @@ func c08DrawAmount(t *rapid.T, side lnwire.MilliSatoshi,
 	case "tiny":
 		// around the forwarding policy's MinHTLCOut (5 sat).
 		amt = rapid.SampledFrom([]int64{
-			1, 999, 1000, 4999, 5000, 5001, 6000, 20000,
+			1, 4999, 5000, 5000, 5001, 5001, 6000, 20000,
 		}).Draw(t, label+"tiny")
 	case "dust":
 		// dust limits 200/800 sat plus the HTLC tx fee at 6000 sat/kw
@@ -155,16 +155,18 @@ func c08DrawPlan(t *rapid.T) *c08Plan {
 	}).Draw(t, "sideSat")
 	side := lnwire.NewMSatFromSatoshis(btcutil.Amount(p.SideSat))
 
-	p.Restarts = rapid.SampledFrom([]int{0, 1, 1, 1, 1, 2, 2}).Draw(
+	p.Restarts = rapid.SampledFrom([]int{0, 1, 1, 1, 1, 1, 1, 2, 2, 2}).Draw(
 		t, "restarts",
 	)
 	for i := 0; i < p.Restarts; i++ {
 		p.RestartAt = append(p.RestartAt, rapid.SampledFrom([]int{
-			2, 4, 6, 8, 10, 12, 15, 18, 22, 26, 30, 36, 45, 60, 90,
+			3, 5, 7, 9, 11, 13, 15, 18, 21, 24, 28, 32, 40, 60,
 		}).Draw(t, "restartAt"))
 	}
 
-	nPay := rapid.SampledFrom([]int{1, 2, 2, 3, 3, 4, 4, 5, 6, 8}).Draw(
+	nPay := rapid.SampledFrom([]int{
+		1, 2, 2, 3, 3, 3, 4, 4, 4, 5, 5, 6, 7, 8,
+	}).Draw(
 		t, "nPay",
 	)
 	for i := 0; i < nPay; i++ {
@@ -175,7 +177,8 @@ func c08DrawPlan(t *rapid.T) *c08Plan {
 		x.Kind = rapid.SampledFrom([]int{
 			c08KindValid, c08KindValid, c08KindValid, c08KindValid,
 			c08KindOverpay, c08KindUnderpay, c08KindUnknown,
-			c08KindHoldSettle, c08KindHoldSettle, c08KindHoldCancel,
+			c08KindHoldSettle, c08KindHoldSettle, c08KindHoldSettle,
+			c08KindHoldCancel, c08KindHoldCancel,
 		}).Draw(t, l+"kind")
 		x.FeeDelta = rapid.SampledFrom([]int64{
 			0, 0, 0, 0, 0, 0, 0, -1, 1, 777, -1000, -5000,
@@ -185,7 +188,7 @@ func c08DrawPlan(t *rapid.T) *c08Plan {
 		}).Draw(t, l+"cltvDefect")
 		x.Phase = 0
 		if p.Restarts > 0 {
-			x.Phase = rapid.SampledFrom([]int{0, 0, 0, 0, 1, 2}).Draw(
+			x.Phase = rapid.SampledFrom([]int{0, 0, 0, 0, 0, 1, 1, 2}).Draw(
 				t, l+"phase",
 			)
 			if x.Phase > p.Restarts {
@@ -193,7 +196,7 @@ func c08DrawPlan(t *rapid.T) *c08Plan {
 			}
 		}
 		x.At = rapid.SampledFrom([]int{
-			0, 0, 0, 1, 2, 3, 5, 8, 12, 20, 35,
+			0, 0, 0, 0, 1, 2, 3, 4, 6, 9, 14, 25,
 		}).Draw(t, l+"at")
 		x.ResPhase = x.Phase + rapid.IntRange(0, 2).Draw(t, l+"resPhase")
 		if x.ResPhase > p.Restarts {
@@ -209,16 +212,18 @@ func c08DrawPlan(t *rapid.T) *c08Plan {
 	// Cuts only in phases that are followed by a restart (a cut
 	// connection stays dead until the peers reconnect).
 	for ph := 0; ph < p.Restarts; ph++ {
-		nCut := rapid.SampledFrom([]int{0, 1, 1, 1, 2}).Draw(t, "nCut")
+		nCut := rapid.SampledFrom([]int{0, 1, 1, 1, 2, 2}).Draw(t, "nCut")
 		for i := 0; i < nCut; i++ {
 			c := &c08CutPlan{Phase: ph}
 			c.Edge = c08Edge(rapid.IntRange(
 				0, int(c08NumEdges)-1,
 			).Draw(t, "cutEdge"))
-			c.Kind = c08Kind(rapid.IntRange(
-				0, int(c08NumFaultKinds)-1,
-			).Draw(t, "cutKind"))
-			c.Ord = rapid.SampledFrom([]int{1, 1, 1, 2, 2, 3, 4}).Draw(
+			c.Kind = rapid.SampledFrom([]c08Kind{
+				c08Add, c08Add, c08Commit, c08Commit, c08Commit,
+				c08Revoke, c08Revoke, c08Revoke, c08Fulfill,
+				c08Fulfill, c08Fail,
+			}).Draw(t, "cutKind")
+			c.Ord = rapid.SampledFrom([]int{1, 1, 1, 2, 2, 3}).Draw(
 				t, "cutOrd",
 			)
 			c.Both = rapid.Bool().Draw(t, "cutBoth")
@@ -1293,16 +1298,44 @@ func c08TapOracle(log []c08Event) []string {
 	type respSeen struct {
 		settle, failed bool
 		phases         map[int]int
+		firstAt        int
+		signedAt       int // first commit_sig by bob after firstAt
 	}
 	resp := make(map[respKey]*respSeen)
 
 	for i, ev := range log {
 		switch ev.kind {
+		case c08Commit:
+			// A commit_sig by bob covers every answer he sent before
+			// it on that edge.
+			for k, rs := range resp {
+				if k.edge == ev.edge && rs.signedAt < 0 {
+					rs.signedAt = i
+				}
+			}
+
 		case c08Add:
 			ref := addRef{ev.hash, ev.seq, ev.phase, ev.id}
 			latest[ev.edge][ev.id] = ref
 			if ev.edge != c08BtoA && ev.edge != c08BtoC {
 				continue
+			}
+			// Bob must not forward an HTLC whose incoming side he
+			// already answered and signed for.
+			upEdge := c08BtoA
+			if ev.edge == c08BtoA {
+				upEdge = c08BtoC
+			}
+			for k, rs := range resp {
+				if k.edge != upEdge || k.hash != ev.hash ||
+					rs.signedAt < 0 {
+
+					continue
+				}
+				fail("tap#%d: bob sent the add for %x downstream "+
+					"although he answered the incoming HTLC %d at "+
+					"tap#%d and signed that at tap#%d", i,
+					ev.hash[:4], k.id, rs.firstAt, rs.signedAt)
 			}
 			// Bob forwards: once, retransmitted at most once per
 			// reconnect with the same id.
@@ -1339,7 +1372,10 @@ func c08TapOracle(log []c08Event) []string {
 			k := respKey{ev.edge, ev.id, in.hash}
 			rs := resp[k]
 			if rs == nil {
-				rs = &respSeen{phases: make(map[int]int)}
+				rs = &respSeen{
+					phases:  make(map[int]int),
+					firstAt: i, signedAt: -1,
+				}
 				resp[k] = rs
 			}
 			rs.phases[ev.phase]++
@@ -1533,8 +1569,9 @@ func c08RunCase(t *testing.T, plan *c08Plan) *c08Result {
 	}
 	res.inconclusive = r.inconclusive
 	res.exposed = r.shiftExposed
-	if r.shiftExposed && vstats.IsKnown(c08KnownShift) &&
-		!c08IgnoreKnown {
+	known := vstats.IsKnown(c08KnownShift) ||
+		vstats.EnvInt("VERIF_C08_ASSUME_KNOWN", 0) > 0
+	if r.shiftExposed && known && !c08IgnoreKnown {
 		// Known finding: processRemoteAdds indexes the forwarding
 		// package with positions of the not-yet-acked subset after a
 		// restart. Every later observation of such a case is tainted.
